@@ -23,7 +23,7 @@ EXTENDS Naturals, Sequences, FiniteSets, SequencesExt, Functions
 
 BoolDims == {"first", "local", "icache", "testnet", "cdir", "home", "upnp", "um", "env", "arst", "uenv"}
 Dims == <<"evm", "nport", "rport", "raddr", "mport", "ip", "first", "local", "peers", "urls", "icache", "testnet", "cdir",
-          "lfmt", "ldir", "march", "mlog", "owner", "home", "upnp", "um", "env", "arst", "rew", "netid", "uenv">>
+          "lfmt", "ldir", "march", "mlog", "owner", "home", "upnp", "um", "env", "arst", "rew", "netid", "uenv", "second">>
 Vals(d) == CASE d = "evm"   -> <<"one", "sepolia", "custom">>
              [] d = "mport" -> <<"none", "some", "auto">>
              [] d \in {"nport", "rport", "raddr", "ip", "march", "mlog", "netid"} -> <<"none", "some">>
@@ -31,6 +31,9 @@ Vals(d) == CASE d = "evm"   -> <<"one", "sepolia", "custom">>
              [] d = "lfmt"  -> <<"none", "default", "json">>
              [] d = "ldir"  -> <<"custom", "default">>
              [] d = "owner" -> <<"none", "lower", "mixed">>
+             \* a SECOND service is added between the installation and the upgrade of the first: none / one added
+             \* without --env / one added with another --env
+             [] d = "second" -> <<"none", "noenv", "otherenv">>
              [] d = "rew"   -> <<1, 2>>
              [] d \in BoolDims -> <<FALSE, TRUE>>
 
@@ -166,6 +169,14 @@ C20_UpgradeKeeps(e) ==
     /\ e.upgrade.autostart = e.install.autostart
     /\ IF e.o.uenv THEN e.upgrade.has_env /\ e.upgrade.env = e.conc.uenv
        ELSE e.upgrade.has_env = e.install.has_env /\ e.upgrade.env = e.install.env
+
+\* Known finding C20-environment-is-registry-wide: the environment lives in the registry, not with the service; a
+\* later `add --env` replaces it, and an upgrade that names no --env regenerates EVERY service with the latest one
+KF_C20_1(e) ==
+    /\ e.add_res = "Ok" /\ e.upg_res = "Ok" /\ e.has_install /\ e.has_upgrade
+    /\ e.o.second = "otherenv" /\ ~e.o.uenv
+    /\ e.upgrade.has_env /\ e.upgrade.env = e.conc.oenv
+    /\ C20_UpgradeKeeps([e EXCEPT !.upgrade.has_env = e.install.has_env, !.upgrade.env = e.install.env])
 
 \* the install definition itself carries the requested program / user / environment / autostart
 C20_InstallAsAsked(e) ==
